@@ -99,7 +99,7 @@ func (p *Program) genFunc(fc *FuncContract) (g *Gen, fr *Frame, ur *UnitResult) 
 		pre.vars[prm.Name()] = &SVal{V: args[i], T: prm.Type()}
 	}
 	for _, fv := range fn.FreeVars {
-		pre.vars[fv.Name()] = &SVal{V: fr.vals[fv], T: fv.Type()}
+		pre.vars[fv.Name()] = freeVarSVal(fr.vals[fv], fv.Type())
 	}
 	for _, rq := range fc.Requires {
 		pre.where = fmt.Sprintf("%s:%d", rq.File, rq.Line)
@@ -110,6 +110,17 @@ func (p *Program) genFunc(fc *FuncContract) (g *Gen, fr *Frame, ur *UnitResult) 
 		fr.assume(pre.boolTerm(as.Expr), "assume "+as.Src)
 		ur.Assumed = append(ur.Assumed, ur.Name+": assume "+as.Src)
 	}
+	// shared words under a protocol satisfy its invariant when the function is entered
+	func() {
+		defer func() {
+			if r := recover(); r != nil {
+				fr.protos = nil // instance names a local: resolved (and Inv assumed) at the first atomic operation
+			}
+		}()
+		for _, pi := range fr.protoInsts(h) {
+			fr.assume(fr.callSpecBool(pi.pr.Inv, h, fr.protoState(pi, h)), "invariant of protocol "+pi.pr.Name+" at entry")
+		}
+	}()
 	fr.run(args, "true", h)
 	ur.Loops = len(fr.loops)
 	for _, li := range fr.loops {
